@@ -516,6 +516,23 @@ class Machine:
             if isinstance(base, int):
                 return (base + off) & M64
             return base   # symbolic
+        m = re.match(r'^(-?\d+)?\((\w+)\)\((\w+)\*(\d)\)$', s)
+        if m:
+            off = int(m.group(1) or 0)
+            base = self.g[m.group(2)]
+            idx = self.g[m.group(3)]
+            sc = int(m.group(4))
+            if isinstance(idx, Addr):
+                raise AsmUnsupported('pointer used as index register')
+            if not isinstance(idx, int):
+                return idx if is_sym(idx) else bv(idx, 64)   # data-dependent index: symbolic address
+            if idx >> 63:
+                idx -= 1 << 64
+            if isinstance(base, Addr):
+                return Addr(base.region, base.off + off + idx * sc)
+            if isinstance(base, int):
+                return (base + off + idx * sc) & M64
+            return base
         m = re.match(r'^(\w+)<>(?:\+(\d+))?\(SB\)$', s)
         if m:
             return Addr(m.group(1), int(m.group(2) or 0))
